@@ -16,14 +16,22 @@ func init() {
 			return nil
 		}
 		switch {
-		case strings.HasSuffix(key, ").MustMarshal"), strings.HasSuffix(key, ").MustMarshalLengthPrefixed"):
-			return codecMarshal(true)
-		case strings.HasSuffix(key, ").Marshal"), strings.HasSuffix(key, ").MarshalLengthPrefixed"):
-			return codecMarshal(false)
-		case strings.HasSuffix(key, ").MustUnmarshal"), strings.HasSuffix(key, ").MustUnmarshalLengthPrefixed"):
-			return codecUnmarshal(true)
-		case strings.HasSuffix(key, ").Unmarshal"), strings.HasSuffix(key, ").UnmarshalLengthPrefixed"):
-			return codecUnmarshal(false)
+		case strings.HasSuffix(key, ").MustMarshal"):
+			return codecMarshal(true, false)
+		case strings.HasSuffix(key, ").MustMarshalLengthPrefixed"):
+			return codecMarshal(true, true)
+		case strings.HasSuffix(key, ").Marshal"):
+			return codecMarshal(false, false)
+		case strings.HasSuffix(key, ").MarshalLengthPrefixed"):
+			return codecMarshal(false, true)
+		case strings.HasSuffix(key, ").MustUnmarshal"):
+			return codecUnmarshal(true, false)
+		case strings.HasSuffix(key, ").MustUnmarshalLengthPrefixed"):
+			return codecUnmarshal(true, true)
+		case strings.HasSuffix(key, ").Unmarshal"):
+			return codecUnmarshal(false, false)
+		case strings.HasSuffix(key, ").UnmarshalLengthPrefixed"):
+			return codecUnmarshal(false, true)
 		}
 		return nil
 	}
@@ -31,9 +39,12 @@ func init() {
 
 // codecFns declares mar/unm/venc for a message sort:
 //   unm(mar(x)) = x, venc(mar(x)), mar(x) non-nil; len(b)=0 ==> venc(b) and unm(b) = zero value.
-func (g *Gen) codecFns(elem types.Type) (mar, unm, venc string) {
-	s := g.reg.SortOf(elem)
+func (g *Gen) codecFns(elem types.Type, lp bool) (mar, unm, venc string) {
+	s := g.flatSort(elem)
 	m := mangle(s)
+	if lp {
+		m = "lp_" + m
+	}
 	mar, unm, venc = "mar_"+m, "unm_"+m, "venc_"+m
 	if !g.zeroFns[mar] {
 		g.zeroFns[mar] = true
@@ -41,11 +52,116 @@ func (g *Gen) codecFns(elem types.Type) (mar, unm, venc string) {
 			fmt.Sprintf("(declare-fun %s (%s) Bytes)", mar, s),
 			fmt.Sprintf("(declare-fun %s (Bytes) %s)", unm, s),
 			fmt.Sprintf("(declare-fun %s (Bytes) Bool)", venc),
-			fmt.Sprintf("(assert (forall ((x %s)) (! (and (= (%s (%s x)) x) (%s (%s x)) (not (isnil_Bytes (%s x)))) :pattern ((%s x)))))", s, unm, mar, venc, mar, mar, mar),
-			fmt.Sprintf("(assert (forall ((b Bytes)) (! (=> (= (len_Bytes b) 0) (and (%s b) (= (%s b) %s))) :pattern ((%s b)))))", venc, unm, g.zero(elem), unm),
-			fmt.Sprintf("(assert (forall ((b Bytes)) (! (=> (= (len_Bytes b) 0) (%s b)) :pattern ((%s b)))))", venc, venc))
+			fmt.Sprintf("(assert (forall ((x %s)) (! (and (%s (%s x)) (not (isnil_Bytes (%s x)))) :pattern ((%s x)))))", s, venc, mar, mar, mar))
+		norm := "true"
+		if fi := g.reg.structs[s]; fi != nil && strings.HasPrefix(s, "Flat_") {
+			// normal form: an absent sub-message carries the zero value; decoding yields normal forms, and the
+			// round trip holds for normal forms only
+			var ns []string
+			for i, fn := range fi.FNames {
+				if strings.HasSuffix(fn, "IsNil") && i+1 < len(fi.FNames) && fi.FNames[i+1]+"IsNil" == fn {
+					g.reg.decls = append(g.reg.decls, fmt.Sprintf("(assert (forall ((b Bytes)) (! (=> (%s (%s b)) (= (%s (%s b)) %s)) :pattern ((%s b)))))",
+						fi.Fields[i], unm, fi.Fields[i+1], unm, g.zero(fi.FTypes[i+1]), unm))
+					ns = append(ns, fmt.Sprintf("(=> (%s x) (= (%s x) %s))", fi.Fields[i], fi.Fields[i+1], g.zero(fi.FTypes[i+1])))
+				}
+			}
+			norm = andOf(ns)
+		}
+		g.reg.decls = append(g.reg.decls, fmt.Sprintf("(assert (forall ((x %s)) (! (=> %s (= (%s (%s x)) x)) :pattern ((%s x)))))", s, norm, unm, mar, mar))
+		if !lp {
+			// the empty byte string decodes to the zero message (length-prefixed encodings are never empty)
+			g.reg.decls = append(g.reg.decls,
+				fmt.Sprintf("(assert (forall ((b Bytes)) (! (=> (= (len_Bytes b) 0) (and (%s b) (= (%s b) %s))) :pattern ((%s b)))))", venc, unm, g.flatZero(elem), unm),
+				fmt.Sprintf("(assert (forall ((b Bytes)) (! (=> (= (len_Bytes b) 0) (%s b)) :pattern ((%s b)))))", venc, venc))
+		} else {
+			g.reg.decls = append(g.reg.decls,
+				fmt.Sprintf("(assert (forall ((x %s)) (! (> (len_Bytes (%s x)) 0) :pattern ((%s x)))))", s, mar, mar))
+		}
 	}
 	return
+}
+
+// flatSort: the sort of a message value with its directly referenced sub-messages inlined
+// (pointer-to-struct fields become (isnil, value)); other reference fields stay references to immutable cells.
+func (g *Gen) flatSort(t types.Type) string {
+	s := g.reg.SortOf(t)
+	si := g.reg.structs[s]
+	if si == nil {
+		return s
+	}
+	has := false
+	for _, ft := range si.FTypes {
+		if p, ok := ft.Underlying().(*types.Pointer); ok {
+			if _, ok := p.Elem().Underlying().(*types.Struct); ok && g.reg.structs[g.reg.SortOf(p.Elem())] != nil {
+				has = true
+			}
+		}
+	}
+	if !has {
+		return s
+	}
+	fs := "Flat_" + s
+	if g.reg.structs[fs] != nil {
+		return fs
+	}
+	fi := &StructInfo{Sort: fs, Ctor: "mk_" + fs}
+	var decl []string
+	for i, ft := range si.FTypes {
+		if p, ok := ft.Underlying().(*types.Pointer); ok {
+			if _, ok := p.Elem().Underlying().(*types.Struct); ok && g.reg.structs[g.reg.SortOf(p.Elem())] != nil {
+				us := g.reg.SortOf(p.Elem())
+				fi.Fields = append(fi.Fields, fs+"."+si.FNames[i]+"IsNil", fs+"."+si.FNames[i])
+				fi.FNames = append(fi.FNames, si.FNames[i]+"IsNil", si.FNames[i])
+				fi.FTypes = append(fi.FTypes, types.Typ[types.Bool], p.Elem())
+				fi.FSorts = append(fi.FSorts, "Bool", us)
+				decl = append(decl, fmt.Sprintf("(%s.%sIsNil Bool)", fs, si.FNames[i]), fmt.Sprintf("(%s.%s %s)", fs, si.FNames[i], us))
+				continue
+			}
+		}
+		fi.Fields = append(fi.Fields, fs+"."+si.FNames[i])
+		fi.FNames = append(fi.FNames, si.FNames[i])
+		fi.FTypes = append(fi.FTypes, ft)
+		fi.FSorts = append(fi.FSorts, si.FSorts[i])
+		decl = append(decl, fmt.Sprintf("(%s.%s %s)", fs, si.FNames[i], si.FSorts[i]))
+	}
+	g.reg.structs[fs] = fi
+	g.reg.decls = append(g.reg.decls, fmt.Sprintf("(declare-datatypes ((%s 0)) (((%s %s))))", fs, fi.Ctor, strings.Join(decl, " ")))
+	return fs
+}
+
+func (g *Gen) flatZero(t types.Type) string {
+	fs := g.flatSort(t)
+	if !strings.HasPrefix(fs, "Flat_") {
+		return g.zero(t)
+	}
+	return g.flattenWith(g.zero(t), t, func(string) string { return "" })
+}
+
+// flattenWith builds the flat value of a struct term; heapOf gives the current heap array for a sort ("" = all pointers nil).
+func (g *Gen) flattenWith(term string, t types.Type, heapOf func(sort string) string) string {
+	fs := g.flatSort(t)
+	if !strings.HasPrefix(fs, "Flat_") {
+		return term
+	}
+	si := g.reg.structs[g.reg.SortOf(t)]
+	var args []string
+	for i, ft := range si.FTypes {
+		f := "(" + si.Fields[i] + " " + term + ")"
+		if p, ok := ft.Underlying().(*types.Pointer); ok {
+			if _, ok := p.Elem().Underlying().(*types.Struct); ok && g.reg.structs[g.reg.SortOf(p.Elem())] != nil {
+				us := g.reg.SortOf(p.Elem())
+				h := heapOf(us)
+				if h == "" {
+					args = append(args, "true", g.zero(p.Elem()))
+				} else {
+					args = append(args, "(= "+f+" 0)", "(ite (= "+f+" 0) "+g.zero(p.Elem())+" (select "+h+" "+f+"))")
+				}
+				continue
+			}
+		}
+		args = append(args, f)
+	}
+	return "(mk_" + fs + " " + strings.Join(args, " ") + ")"
 }
 
 func dynElem(v Val) types.Type {
@@ -62,7 +178,7 @@ func dynElem(v Val) types.Type {
 	return nil
 }
 
-func codecMarshal(must bool) intrinsic {
+func codecMarshal(must, lp bool) intrinsic {
 	return func(fr *frame, com *ssa.CallCommon, args []Val, st *State, reach string) Val {
 		ft := fr.ft
 		g := ft.g
@@ -74,7 +190,7 @@ func codecMarshal(must bool) intrinsic {
 			ft.unsupported("codec marshal of a value with unknown dynamic type in %s", fr.fn)
 			return fr.havocResult(rs, st)
 		}
-		mar, _, _ := g.codecFns(elem)
+		mar, _, _ := g.codecFns(elem, lp)
 		ptr := fr.asValue(msg, st)
 		if msg.DynT != nil {
 			ptr = g.unboxIface(ptr, msg.DynT)
@@ -83,7 +199,8 @@ func codecMarshal(must bool) intrinsic {
 		es := g.reg.SortOf(elem)
 		h := ft.stateGet(st, "H|"+es, "(Array Int "+es+")")
 		res := ft.fresh("mar", "Bytes")
-		ft.fact("(= " + res + " (" + mar + " (select " + h + " " + ptr + ")))")
+		flat := g.flattenWith("(select "+h+" "+ptr+")", elem, func(srt string) string { return ft.stateGet(st, "H|"+srt, "(Array Int "+srt+")") })
+		ft.fact("(= " + res + " (" + mar + " " + flat + "))")
 		if must || rs.Len() == 1 {
 			return Val{T: res, Ty: rs.At(0).Type()}
 		}
@@ -91,7 +208,7 @@ func codecMarshal(must bool) intrinsic {
 	}
 }
 
-func codecUnmarshal(must bool) intrinsic {
+func codecUnmarshal(must, lp bool) intrinsic {
 	return func(fr *frame, com *ssa.CallCommon, args []Val, st *State, reach string) Val {
 		ft := fr.ft
 		g := ft.g
@@ -104,7 +221,7 @@ func codecUnmarshal(must bool) intrinsic {
 			ft.unsupported("codec unmarshal into a value with unknown dynamic type in %s", fr.fn)
 			return fr.havocResult(rs, st)
 		}
-		_, unm, venc := g.codecFns(elem)
+		_, unm, venc := g.codecFns(elem, lp)
 		ptr := fr.asValue(msg, st)
 		if msg.DynT != nil {
 			ptr = g.unboxIface(ptr, msg.DynT)
@@ -114,18 +231,51 @@ func codecUnmarshal(must bool) intrinsic {
 		hs := "(Array Int " + es + ")"
 		h := ft.stateGet(st, "H|"+es, hs)
 		nh := ft.fresh("h", hs)
+		decoded := fr.unflatten("("+unm+" "+bz+")", elem, st)
+		h = ft.stateGet(st, "H|"+es, hs)
 		if must {
 			ft.addObl(fr, "pre", fr.tag+"MustUnmarshal.validEncoding", reach, "("+venc+" "+bz+")", "MustUnmarshal panics on bytes that are not a valid encoding", nil, nil)
-			ft.fact("(= " + nh + " (store " + h + " " + ptr + " (" + unm + " " + bz + ")))")
+			ft.fact("(= " + nh + " (store " + h + " " + ptr + " " + decoded + "))")
 			ft.stateSet(fr, st, "H|"+es, hs, nh)
 			return Val{T: "0", Ty: rs}
 		}
 		// error-returning: succeeds iff valid; on failure the target content is unspecified
 		junk := ft.fresh("junk", es)
-		ft.fact(fmt.Sprintf("(= %s (store %s %s (ite (%s %s) (%s %s) %s)))", nh, h, ptr, venc, bz, unm, bz, junk))
+		ft.fact(fmt.Sprintf("(= %s (store %s %s (ite (%s %s) %s %s)))", nh, h, ptr, venc, bz, decoded, junk))
 		ft.stateSet(fr, st, "H|"+es, hs, nh)
 		errv := ft.fresh("uerr", "Iface")
 		ft.fact(fmt.Sprintf("(= (= (itag %s) 0) (%s %s))", errv, venc, bz))
 		return Val{T: errv, Ty: rs.At(0).Type()}
 	}
 }
+
+// unflatten turns a flat message value into a struct value, allocating fresh cells for directly referenced sub-messages.
+func (fr *frame) unflatten(flat string, t types.Type, st *State) string {
+	g := fr.ft.g
+	fs := g.flatSort(t)
+	if !strings.HasPrefix(fs, "Flat_") {
+		return flat
+	}
+	si := g.reg.structs[g.reg.SortOf(t)]
+	var args []string
+	for i, ft := range si.FTypes {
+		name := si.FNames[i]
+		if p, ok := ft.Underlying().(*types.Pointer); ok {
+			if _, ok := p.Elem().Underlying().(*types.Struct); ok && g.reg.structs[g.reg.SortOf(p.Elem())] != nil {
+				us := g.reg.SortOf(p.Elem())
+				ref := fr.newRef(st)
+				hs := "(Array Int " + us + ")"
+				h := fr.ft.stateGet(st, "H|"+us, hs)
+				nh := fr.ft.fresh("h", hs)
+				fr.ft.fact("(= " + nh + " (store " + h + " " + ref + " (" + fs + "." + name + " " + flat + ")))")
+				fr.ft.stateSet(fr, st, "H|"+us, hs, nh)
+				args = append(args, "(ite ("+fs+"."+name+"IsNil "+flat+") 0 "+ref+")")
+				continue
+			}
+		}
+		args = append(args, "("+fs+"."+name+" "+flat+")")
+	}
+	return "(" + si.Ctor + " " + strings.Join(args, " ") + ")"
+}
+
+func (g *Gen) codecFnsSort(sort string, t types.Type, lp bool) (string, string, string) { return g.codecFns(t, lp) }
